@@ -5,22 +5,39 @@ From Coq Require Import ZArith List Bool Lia.
 From V Require Import Time.Calendar.
 Open Scope Z_scope.
 
-(** * Finite ranges of Z *)
+(** * Finite ranges of Z: [all_below f n] checks [f] on 0 .. n-1 with logarithmic stack depth *)
 
-Definition zrange (n : Z) : list Z := map Z.of_nat (seq 0 (Z.to_nat n)).
+Definition chk_step (f : Z -> bool) (st : Z * bool) : Z * bool :=
+  let '(z, b) := st in (z + 1, if b then f z else false).
 
-Lemma zrange_In : forall n z, 0 <= z < n -> In z (zrange n).
+Definition all_below (f : Z -> bool) (n : Z) : bool := snd (Z.iter n (chk_step f) (0, true)).
+
+Lemma chk_iter_nat :
+  forall f (n : nat),
+  fst (Nat.iter n (chk_step f) (0, true)) = Z.of_nat n /\
+  (snd (Nat.iter n (chk_step f) (0, true)) = true ->
+   forall z, 0 <= z < Z.of_nat n -> f z = true).
 Proof.
-  intros n z Hz. unfold zrange. apply in_map_iff.
-  exists (Z.to_nat z). split.
-  - apply Z2Nat.id. lia.
-  - apply in_seq. lia.
+  intros f n. induction n as [|n IH].
+  - cbn. split; [reflexivity | intros _ z Hz; lia].
+  - cbn [Nat.iter nat_rect].
+    change (nat_rect (fun _ => (Z * bool)%type) (0, true) (fun _ => chk_step f) n)
+      with (Nat.iter n (chk_step f) (0, true)).
+    destruct (Nat.iter n (chk_step f) (0, true)) as [z0 b] eqn:E.
+    cbn [fst snd] in IH. destruct IH as [IH1 IH2].
+    unfold chk_step. cbn [fst snd]. split; [lia|].
+    intros Hb z Hz. destruct b; [|discriminate].
+    destruct (Z.eq_dec z z0) as [->|Hne]; [exact Hb|]. apply IH2; [reflexivity | lia].
 Qed.
 
-Lemma zrange_forallb :
-  forall (f : Z -> bool) n, forallb f (zrange n) = true -> forall z, 0 <= z < n -> f z = true.
+Lemma all_below_spec :
+  forall f n, all_below f n = true -> forall z, 0 <= z < n -> f z = true.
 Proof.
-  intros f n H z Hz. rewrite forallb_forall in H. apply H. apply zrange_In. exact Hz.
+  intros f n H z Hz. unfold all_below in H.
+  destruct n as [|p|p]; try lia.
+  cbn [Z.iter] in H. rewrite Pos2Nat.inj_iter in H.
+  destruct (chk_iter_nat f (Pos.to_nat p)) as [_ H2].
+  apply H2; [exact H | lia].
 Qed.
 
 (** * calendar_inverse *)
@@ -29,7 +46,7 @@ Definition cal_inv_check (z : Z) : bool :=
   let '(y, m, d) := civil_from_days z in
   valid_date y m d && (1970 <=? y) && (y <=? 2099) && (days_from_civil y m d =? z).
 
-Lemma cal_inv_check_all : forallb cal_inv_check (zrange 47482) = true.
+Lemma cal_inv_check_all : all_below cal_inv_check 47482 = true.
 Proof. vm_compute. reflexivity. Qed.
 
 Lemma calendar_inverse :
@@ -38,7 +55,7 @@ Lemma calendar_inverse :
   valid_date y m d = true /\ 1970 <= y <= 2099 /\ days_from_civil y m d = z.
 Proof.
   intros z Hz.
-  pose proof (zrange_forallb _ _ cal_inv_check_all z Hz) as H.
+  pose proof (all_below_spec _ _ cal_inv_check_all z Hz) as H.
   unfold cal_inv_check in H.
   destruct (civil_from_days z) as [[y m] d].
   apply andb_true_iff in H. destruct H as [H H4].
@@ -136,12 +153,12 @@ Definition date_key (z : Z) : Z := let '(y, m, d) := civil_from_days z in y * 10
 
 Definition key_step_check (z : Z) : bool := date_key z <? date_key (z + 1).
 
-Lemma key_step_check_all : forallb key_step_check (zrange 47481) = true.
+Lemma key_step_check_all : all_below key_step_check 47481 = true.
 Proof. vm_compute. reflexivity. Qed.
 
 Lemma date_key_step : forall z, 0 <= z < 47481 -> date_key z < date_key (z + 1).
 Proof.
-  intros z Hz. apply Z.ltb_lt. exact (zrange_forallb _ _ key_step_check_all z Hz).
+  intros z Hz. apply Z.ltb_lt. exact (all_below_spec _ _ key_step_check_all z Hz).
 Qed.
 
 Lemma date_key_mono_nat :
